@@ -107,3 +107,13 @@ func VerifBatchResult(v interface{}) map[uuid.UUID]error {
 	}
 	return nil
 }
+
+// VerifDropClients forgets the cached RPC clients for a node, so that the next call has to dial it.
+func (this *Dataset) VerifDropClients(nodeId uint64) {
+	this.dataManagerClientsMu.Lock()
+	delete(this.dataManagerClients, nodeId)
+	this.dataManagerClientsMu.Unlock()
+	this.searchClientsMu.Lock()
+	delete(this.searchClients, nodeId)
+	this.searchClientsMu.Unlock()
+}
